@@ -67,6 +67,10 @@ def market_and_configs():
         dict(base, name='fixed-longonly-daily-from-midnight',
              alpha={'kind': 'fixed', 'weights': {'EQ:CCC': 0.2, 'EQ:AAA': 0.5, 'EQ:BBB': 0.3}},
              rebalance='daily', long_only=True, buffer=0.05, start=rm.utc(datetime.date(2020, 2, 24), 0, 0).isoformat()),
+        # ... and with the END written as a plain day (00:00) while the start is 14:30
+        dict(base, name='fixed-longonly-daily-end-as-plain-day',
+             alpha={'kind': 'fixed', 'weights': {'EQ:CCC': 0.2, 'EQ:AAA': 0.5, 'EQ:BBB': 0.3}},
+             rebalance='daily', long_only=True, buffer=0.05, end=rm.utc(datetime.date(2020, 3, 2), 0, 0).isoformat()),
         dict(base, name='late-data-momentum', market='late', alpha={'kind': 'mom_top1', 'lookback': 1}, rebalance='daily',
              long_only=True, buffer=0.05),
     ]
